@@ -11,7 +11,7 @@ one reporter call, or a lock-protected region without schedule point).
 Close:  if !closed.CAS(false,true) { return nil }        start  → won | returnedNil
         close(done)                                       won    → doneClosedPc
         wg.Wait()                                         doneClosedPc → pass begin   (enabled iff the loop has exited / never existed)
-        reportRegistry()   = pass; Flush                  pass begin → swap 0 → [deliver 0] → swap 1 … → flush → purgePc
+        reportRegistry()   = pass; Flush                  pass begin → pick [] → [deliver c] → pick [c] … → flush → purgePc
         registry.purge()                                  purgePc → reporterClose
         if io.Closer: return reporter.Close()             reporterClose → returned r
 loop:   for { select { case <-ticker.C: reportLoopRun()   waiting → ticked        (event `tick`)
@@ -22,10 +22,15 @@ loop:   for { select { case <-ticker.C: reportLoopRun()   waiting → ticked    
 
 The `select` is nondeterministic: from `waiting` both `tick` and (once `done` is closed) `exit` are
 possible.  A slow reporter call is the scheduler not running that thread for a while (the thread sits
-in `pass (deliver i pend)` or `pass flush`).  Plain and cached reporters have the same shape
+in `pass (deliver i pend vis)` or `pass flush`).  Plain and cached reporters have the same shape
 (`Report`/`CachedReport`, then `Flush`), so one model covers both.
 
-A pass visits the cells `0 … K-1` in order; a visit is the atomic swap of the cell's unreported
+A pass visits every cell `0 … K-1` once, in an ARBITRARY order (the range loops of `registry.Report` run
+over Go maps): the order is chosen by the event (`Ev.loop choice` / `Ev.closer t choice`), afresh at every
+`pick` pc, so it may differ from pass to pass.  `pick vis` is "inside the range loops, the cells in `vis`
+have been visited"; a choice `c < K` not yet in `vis` visits cell `c`, a choice `c ≥ K` says "the range
+loops are over" and is possible only when every cell has been visited; every other choice is not enabled.
+At every other pc the choice is ignored.  A visit is the atomic swap of the cell's unreported
 content (C01/C02) followed — if it was not empty — by the reporter call.  `begin` is the start of
 `registry.Report` (which reports the internal cardinality gauges: log entry `internal`, so that even
 an empty pass is visible in the log).  There is no separate `waited` pc: a closer for which
@@ -62,8 +67,8 @@ deriving Repr, DecidableEq
 /-- program counter inside `reportRegistry()` (shared by the loop and by `Close`) -/
 inductive PassPc
   | begin                                   -- about to start `registry.Report` (= `waited` for a closer)
-  | swap (i : Nat)                          -- about to visit cell i (or to find the range loop finished)
-  | deliver (i : Nat) (pend : List Token)   -- swapped `pend` out of cell i; about to call the reporter
+  | pick (vis : List Nat)                   -- inside the range loops: cells in `vis` have been visited by this pass
+  | deliver (i : Nat) (pend : List Token) (vis : List Nat)   -- swapped `pend` out of cell i (i ∈ vis); about to call the reporter
   | flush                                   -- registry walked; about to call `Flush`
 deriving Repr, DecidableEq
 
@@ -115,23 +120,26 @@ inductive Ev
   | obtain (cell : Nat)     -- `Subscope`: inert once the root is closed
   | tick                    -- the loop's `select` takes the ticker case
   | exit                    -- the loop's `select` takes the `done` case
-  | loop                    -- the loop's next atomic action inside `reportLoopRun`
-  | closer (t : Nat)        -- the next atomic action of `Close` call `t`
+  | loop (choice : Nat)     -- the loop's next atomic action inside `reportLoopRun`; `choice` is used only at a `pick` pc
+  | closer (t : Nat) (choice : Nat)   -- the next atomic action of `Close` call `t`; `choice` used only at a `pick` pc
 deriving Repr, DecidableEq
 
 def setC (s : State) (t : Nat) (p : CPc) : State :=
   { s with closers := fun u => if u = t then p else s.closers u }
 
-/-- one atomic action of a report pass; next pc `none` = `reportRegistry` returned -/
-def passStep (s : State) : PassPc → State × Option PassPc
-  | .begin => ({ s with log := .internal :: s.log }, some (.swap 0))
-  | .swap i =>
-    match s.cells[i]? with
-    | none => (s, some .flush)
-    | some [] => (s, some (.swap (i + 1)))
-    | some (x :: c) => ({ s with cells := s.cells.set i [] }, some (.deliver i (x :: c)))
-  | .deliver i pend => ({ s with log := .deliver pend :: s.log }, some (.swap (i + 1)))
-  | .flush => ({ s with log := .flush :: s.log }, none)
+/-- one atomic action of a report pass; `none` = this choice is not possible; next pc `none` = `reportRegistry` returned -/
+def passStep (s : State) (c : Nat) : PassPc → Option (State × Option PassPc)
+  | .begin => some ({ s with log := .internal :: s.log }, some (.pick []))
+  | .pick vis =>
+    if c < s.cells.length then
+      if c ∈ vis then none                         -- a range loop visits every entry once
+      else match s.cells[c]? with
+        | some (x :: r) => some ({ s with cells := s.cells.set c [] }, some (.deliver c (x :: r) (c :: vis)))
+        | _ => some (s, some (.pick (c :: vis)))  -- nothing unreported in that scope
+    else                                           -- c ≥ K: "the range loops are over"
+      if (List.range s.cells.length).all (fun i => vis.contains i) then some (s, some .flush) else none
+  | .deliver _ pend vis => some ({ s with log := .deliver pend :: s.log }, some (.pick vis))
+  | .flush => some ({ s with log := .flush :: s.log }, none)
 
 /-- `registry.purge()`: everything still unreported is dropped, every scope unregistered -/
 def purgeAll (s : State) : State :=
@@ -159,15 +167,16 @@ def step (s : State) : Ev → Option State
     match s.loop with
     | .waiting => if s.doneClosed then some { s with loop := .exited } else none
     | _ => none
-  | .loop =>
+  | .loop choice =>
     match s.loop with
     | .ticked => if s.closed then some { s with loop := .waiting } else some { s with loop := .pass .begin }
     | .pass p =>
-      match passStep s p with
-      | (s1, some q) => some { s1 with loop := .pass q }
-      | (s1, none) => some { s1 with loop := .waiting }
+      match passStep s choice p with
+      | some (s1, some q) => some { s1 with loop := .pass q }
+      | some (s1, none) => some { s1 with loop := .waiting }
+      | none => none
     | _ => none
-  | .closer t =>
+  | .closer t choice =>
     match s.closers t with
     | .start =>
       if s.closed then some { setC s t .returnedNil with returns := (t, none) :: s.returns }
@@ -175,9 +184,10 @@ def step (s : State) : Ev → Option State
     | .won => some { setC s t .doneClosedPc with doneClosed := true }
     | .doneClosedPc => if s.loop = .exited then some (setC s t (.pass .begin)) else none
     | .pass p =>
-      match passStep s p with
-      | (s1, some q) => some (setC s1 t (.pass q))
-      | (s1, none) => some (setC s1 t .purgePc)
+      match passStep s choice p with
+      | some (s1, some q) => some (setC s1 t (.pass q))
+      | some (s1, none) => some (setC s1 t .purgePc)
+      | none => none
     | .purgePc => some (setC (purgeAll s) t .reporterClose)
     | .reporterClose =>
       if s.closable then
@@ -207,7 +217,7 @@ def countRC : List LogEv → Nat
   | _ :: l => countRC l
 
 def PassPc.pend : PassPc → List Token
-  | .deliver _ p => p
+  | .deliver _ p _ => p
   | _ => []
 def LoopPc.pend : LoopPc → List Token
   | .pass p => p.pend
@@ -250,31 +260,38 @@ def State.view (s : State) (n : Nat) : View :=
 a pass that finds the root closed when its range loop ends purges the whole registry. -/
 namespace Legacy
 
-def passStep (s : State) : PassPc → State × Option PassPc
-  | .swap i =>
-    match s.cells[i]? with
-    | none => (if s.closed then purgeAll s else s, some .flush)
-    | some [] => (s, some (.swap (i + 1)))
-    | some (x :: c) => ({ s with cells := s.cells.set i [] }, some (.deliver i (x :: c)))
-  | p => RootClose.passStep s p
+def passStep (s : State) (c : Nat) : PassPc → Option (State × Option PassPc)
+  | .pick vis =>
+    if c < s.cells.length then
+      if c ∈ vis then none
+      else match s.cells[c]? with
+        | some (x :: r) => some ({ s with cells := s.cells.set c [] }, some (.deliver c (x :: r) (c :: vis)))
+        | _ => some (s, some (.pick (c :: vis)))
+    else
+      if (List.range s.cells.length).all (fun i => vis.contains i) then
+        some (if s.closed then purgeAll s else s, some .flush)     -- `defer r.purgeIfRootClosed()`
+      else none
+  | p => RootClose.passStep s c p
 
 def step (s : State) : Ev → Option State
-  | .loop =>
+  | .loop choice =>
     match s.loop with
     | .ticked => if s.closed then some { s with loop := .waiting } else some { s with loop := .pass .begin }
     | .pass p =>
-      match passStep s p with
-      | (s1, some q) => some { s1 with loop := .pass q }
-      | (s1, none) => some { s1 with loop := .waiting }
+      match passStep s choice p with
+      | some (s1, some q) => some { s1 with loop := .pass q }
+      | some (s1, none) => some { s1 with loop := .waiting }
+      | none => none
     | _ => none
-  | .closer t =>
+  | .closer t choice =>
     match s.closers t with
     | .doneClosedPc => some (setC s t (.pass .begin))               -- no `wg.Wait()`
     | .pass p =>
-      match passStep s p with
-      | (s1, some q) => some (setC s1 t (.pass q))
-      | (s1, none) => some (setC s1 t .reporterClose)               -- the pass purged already
-    | _ => RootClose.step s (.closer t)
+      match passStep s choice p with
+      | some (s1, some q) => some (setC s1 t (.pass q))
+      | some (s1, none) => some (setC s1 t .reporterClose)          -- the pass purged already
+      | none => none
+    | _ => RootClose.step s (.closer t choice)
   | e => RootClose.step s e
 
 def run (s : State) : List Ev → Option State
